@@ -125,4 +125,105 @@ theorem contReadUntil_post {s : S} (hi : Inv s) (hp : s.parked = none) (sep : By
         rw [hd] at this ⊢
         exact post_of_reach hr this
 
+theorem contReadExactly_post : ∀ (fuel : Nat) {s : S} (n : Nat) (acc : Bytes), Inv s → s.parked = none →
+    Post s acc (contReadExactly fuel s n acc)
+  | 0, s, n, acc, _, hp => by simp only [contReadExactly]; exact post_raise hp acc _
+  | fuel + 1, s, n, acc, hi, hp => by
+    simp only [contReadExactly]
+    split
+    · rename_i h; exact post_park hp (bufs_of_wait h) ⟨.readExactly n, acc, false⟩
+    · obtain ⟨d, hr, hd, -, -⟩ := readNowait_reach hi (some n)
+      have hq := quiet_readNowait s (some n)
+      have hp1 : (readNowait s (some n)).1.parked = none := by rw [hq.parked]; exact hp
+      have hi1 := reach_inv hi hr
+      split
+      · rename_i hde
+        have hd0 : d = [] := by rw [← hd]; simpa using hde
+        refine ⟨⟨d, hr, ?_⟩, by intro _; exact hp1, by intro h; cases h⟩
+        intro _; simp [outBytes, pendAcc, hp1, hd0]
+      · rw [hd]
+        split
+        · exact post_data hp1 hr
+        · split
+          · exact post_of_reach hr (post_raise hp1 _ _)
+          · have hm := Move.setChunk (readNowait s (some n)).1 (n - d.length)
+            have hp2 : (setChunk (readNowait s (some n)).1 (n - d.length)).parked = none := by
+              unfold setChunk; split <;> exact hp1
+            have := contReadExactly_post fuel (n - d.length) (acc ++ d) (move_inv hi1 hm) hp2
+            have h2 := post_of_reach (acc := acc ++ d) (Reach.one hm) (by simpa using this)
+            exact post_of_reach hr h2
+
+/-- the split-popping loop of `readchunk` -/
+theorem chunkSplits_reach : ∀ (l : List Nat) {s : S}, Inv s → s.splits = some l →
+    ∃ d, Reach s (chunkSplits s l).1 d ∧ (chunkSplits s l).1.parked = s.parked ∧
+      (chunkSplits s l).1.lost = s.lost ∧ (chunkSplits s l).1.eof = s.eof ∧
+      ((chunkSplits s l).2 = none → d = []) ∧
+      (∀ o, (chunkSplits s l).2 = some o → o = .chunk d true)
+  | [], s, hi, hs => by
+    refine ⟨[], ?_, rfl, rfl, rfl, by intro _; rfl, by intro o h; simp [chunkSplits] at h⟩
+    simp only [chunkSplits]
+    exact Reach.one (Move.setSplits s [] [] hs (List.Sublist.refl _))
+  | p :: t, s, hi, hs => by
+    have hm := Move.setSplits s (p :: t) t hs (List.sublist_cons_self p t)
+    have hi1 := move_inv hi hm
+    simp only [chunkSplits]
+    split
+    · refine ⟨[], Reach.one hm, rfl, rfl, rfl, ?_, ?_⟩
+      · intro _; rfl
+      · intro o h; exact (Option.some.inj h).symm
+    · split
+      · obtain ⟨d, hr, hd, -, -⟩ := readNowait_reach hi1 (some (p - s.cursor))
+        have hq := quiet_readNowait { s with splits := some t } (some (p - s.cursor))
+        refine ⟨[] ++ d, Reach.step hm hr, hq.parked, hq.lost, hq.eof, ?_, ?_⟩
+        · intro h; exact absurd (show some _ = none from h) (by simp)
+        · intro o h; rw [← Option.some.inj h]; simp [hd]
+      · obtain ⟨d, hr, h1, h2, h3, h4, h5⟩ := chunkSplits_reach t (s := { s with splits := some t }) hi1 rfl
+        exact ⟨[] ++ d, Reach.step hm hr, h1, h2, h3, by simpa using h4, by simpa using h5⟩
+
+theorem contReadChunk_post {s : S} (hi : Inv s) (hp : s.parked = none) (it : Bool) :
+    Post s [] (contReadChunk s it) := by
+  unfold contReadChunk
+  split
+  · exact post_raise hp _ _
+  · -- the splits loop
+    have key : ∀ (s1 : S) (r : Option Out) (d : Bytes), Reach s s1 d → s1.parked = none →
+        (r = none → d = []) → (∀ o, r = some o → o = .chunk d true) →
+        Post s [] (match r with
+          | some o => (s1, o)
+          | none =>
+            if (!s1.bufs.isEmpty) = true then ((rnc s1 none).1, .chunk (rnc s1 none).2 false)
+            else if s1.eof = true then (s1, .chunk [] false)
+            else park s1 ⟨.readChunk, [], it⟩) := by
+      intro s1 r d hr hp1 hn hsome
+      have hi1 := reach_inv hi hr
+      cases r with
+      | some o =>
+        have := hsome o rfl
+        subst this
+        exact ⟨⟨d, hr, by intro _; simp [outBytes, pendAcc, hp1]⟩, by intro _; exact hp1, by intro h; cases h⟩
+      | none =>
+        have hd0 := hn rfl
+        subst hd0
+        simp only []
+        split
+        · rename_i hb
+          have hne : s1.bufs ≠ [] := by intro h; simp [h] at hb
+          have hq := quiet_rnc s1 none
+          refine post_of_reach hr ?_
+          refine ⟨⟨_, Reach.one (Move.rnc s1 none hne), ?_⟩, by intro _; rw [hq.parked]; exact hp1, by intro h; cases h⟩
+          intro _; simp [outBytes, pendAcc, hq.parked, hp1]
+        · split
+          · exact ⟨⟨[], hr, by intro _; simp [outBytes, pendAcc, hp1]⟩, by intro _; exact hp1, by intro h; cases h⟩
+          · rename_i hb _
+            have hb' : s1.bufs = [] := by simpa using hb
+            exact post_of_reach hr (by simpa using post_park hp1 hb' ⟨.readChunk, [], it⟩)
+    cases hs : s.splits with
+    | none =>
+      simp only []
+      exact key s none [] (Reach.refl s) hp (by intro _; rfl) (by intro o h; cases h)
+    | some l =>
+      simp only []
+      obtain ⟨d, hr, h1, -, -, h4, h5⟩ := chunkSplits_reach l hi hs
+      exact key _ _ d hr (by rw [h1]; exact hp) h4 h5
+
 end Aio.C08
